@@ -27,6 +27,12 @@ from core import lean
 from core.prng import Rng
 
 CFG1 = {"processes": 1, "maxchunksperchild": 0, "maxtasksperchunk": 0}
+# phase 6: the three settings and the statements of Experiment.config / the properties / run() the model mirrors
+CFG_NAMES = ["processes", "maxchunksperchild", "maxtasksperchunk"]
+CFG_LABELS = ["config:self._processes=processes", "config:self._maxchunksperchild=maxchunksperchild", "config:self._maxtasksperchunk=maxtasksperchunk",
+              "prop:processes", "prop:maxchunksperchild", "prop:maxtasksperchunk", "run:defaults-None",
+              "run:self.config(processes,maxchunksperchild,maxtasksperchunk)", "run:mp,mc,mt=properties", "run:is_multiproc=mp>1 or mc!=0",
+              "run:ChunkTasks(mt)", "run:CobaMultiprocessor(_,mp,mc,_)"]
 # "every byte offset": a byte range with a pad whose length is 3*log2(size) so that every halving step of
 # the shrinker yields a strictly shorter case (the engine only accepts shorter canonical JSON)
 ALL = [["kr", 0, (1 << 13) - 1, "x" * 39]]
@@ -83,6 +89,30 @@ def ids_of(case):
     return em, lm, vm
 
 
+LAST_RUN = {}      # phase 6: route and effective configuration of the last run() of this process (read right after the call)
+VIAS = ["context", "config+context", "args-over-context", "mixed", "config+args"]
+
+
+def route_of(cfg):
+    """phase 6: how the configuration `cfg` (the EFFECTIVE values wanted) reaches Experiment.run: (values an earlier .config() call
+    stores | None, arguments of run() (None = not given), values of CobaContext.experiment | None = left as they are).  Decoys are
+    values that must NOT take effect; they never switch multi-processing on."""
+    eff = [cfg.get("processes", 1), cfg.get("maxchunksperchild", 0), cfg.get("maxtasksperchunk", 0)]
+    via = cfg.get("via", "args")
+    decoy = [1, 0, eff[2] + int(cfg.get("decoy", 1))]
+    if via == "context":                 # nothing given to run(): the process-global defaults decide
+        return None, [None] * 3, eff
+    if via == "config+context":          # .config(decoy) first; run() without arguments overwrites it with None -> context
+        return decoy, [None] * 3, eff
+    if via == "args-over-context":       # the context holds decoys, run() gets everything
+        return None, eff, decoy
+    if via == "mixed":                   # processes / maxchunksperchild as arguments, maxtasksperchunk from the context, .config(decoy) before
+        return decoy, [eff[0], eff[1], None], [1, 0, eff[2]]
+    if via == "config+args":             # .config(decoy), run() gets everything
+        return decoy, eff, None
+    return None, eff, None
+
+
 def run(case, path, trace, cfg, first=False):
     """Experiment.run on `path`; returns ("ok", Result) or ("raise", exception). Global state of coba is put back."""
     from coba.context import CobaContext, NullLogger
@@ -94,13 +124,31 @@ def run(case, path, trace, cfg, first=False):
         cwd = os.getcwd()
         os.chdir(path[:len(path) - len(name_of(case))] or ".")
         path = name_of(case)
+    stored, args, ctx = route_of(cfg)
+    xc = CobaContext.experiment
+    old_ctx = [getattr(xc, x) for x in CFG_NAMES]
+    LAST_RUN.clear()
+    exp = None
     try:
-        res = build(case, trace, first).run(path, quiet=True, processes=cfg.get("processes", 1), maxchunksperchild=cfg.get("maxchunksperchild", 0),
-                                     maxtasksperchunk=cfg.get("maxtasksperchunk", 0))
+        exp = build(case, trace, first)
+        if ctx is not None:
+            for x, v in zip(CFG_NAMES, ctx):
+                setattr(xc, x, v)            # the PROCESS-GLOBAL defaults (put back below)
+        if stored is not None:
+            exp.config(*stored)              # an earlier .config() call of the script
+        LAST_RUN.update(stored=stored or [None] * 3, args=args, ctx=[int(getattr(xc, x)) for x in CFG_NAMES])
+        res = exp.run(path, quiet=True, **{x: v for x, v in zip(CFG_NAMES, args) if v is not None})
         return "ok", res
     except Exception as e:      # noqa: the property says the resumed run must complete
         return "raise", e
     finally:
+        try:
+            # what the run worked with (run() has called self.config(...) with its own arguments; the context is still in place)
+            LAST_RUN["eff"] = [int(getattr(exp, x)) for x in CFG_NAMES] if exp is not None else None
+        except Exception:
+            LAST_RUN["eff"] = None
+        for x, v in zip(CFG_NAMES, old_ctx):
+            setattr(xc, x, v)
         if cwd is not None:
             os.chdir(cwd)
         CobaContext.logger = old
@@ -337,7 +385,7 @@ class C02(Property):
             "the records, optionally shuffled: what a killed multi-process run leaves); 30% of the cases interrupt a successful resumption again, 1-3 times, "
             "on the same path in the same process; 4-8% of the cases run the INTERRUPTED first run multi-process (one evaluation slowed down so that worker schedules "
             "reorder the records); 15% hand run() a relative path, 10% also a path whose directory is missing; Result.from_file is called on every log that is cut and on "
-            "every file a resumed run leaves; every .gz cut is sent to the model as compressed bytes + the gzip members of the real file; non-trivial = some cut strictly inside the log restores "
+            "every file a resumed run leaves; every .gz cut is sent to the model as compressed bytes + the gzip members of the real file; 30% of the cases hand the configuration of the resumed run over NOT through the arguments of run() but through the process-global CobaContext.experiment, an earlier .config() call or a mix with decoy values (5 routes; the model computes the effective values); non-trivial = some cut strictly inside the log restores "
             "at least one record and leaves at least one task to run; distinct by canonical JSON of the case")
     trusted_base = [
         "file-system append semantics: a killed run leaves a byte prefix of what it would have written (the cut files are produced by truncating a complete log)",
@@ -349,6 +397,7 @@ class C02(Property):
         "the n_learners/n_environments mismatch test of run() is not modelled (the re-run uses the same experiment)",
         "entry point: the file system is a PathInfo (path string, directory exists, bytes of the file if any); relative paths are resolved by the OS (the model only sees the string for the gzip test); "
         "for .gz the bytes of NEW members are produced by zlib and not by the model (compared after decompression; kept bytes and 'nothing but empty members appended' are compared on the bytes)",
+        "execution configuration: the statements of Experiment.config, the three properties and the head of run() are re-extracted by ast on every run (Generated/C02Config.lean, obligation config_route_as_modelled); CobaContext.experiment is an object with three plain attributes (the .coba config file loader behind it is not modelled)",
         "sparse logs: with every task its own chunk and enough processes a killed run can leave the records of ANY subset of the tasks in ANY order after the two preamble lines (used only when no environment is chunk()ed); the theorems cover every ValidLog",
     ]
     assumptions = ["the experiment lists every triple once and is re-run unchanged", "evaluator objects are truthy",
@@ -559,6 +608,66 @@ class C02(Property):
             "end Coba.Generated.C02Sink\n" % (batch, lst(shape), "true" if ok else "false"))
         notes.append(("DiskSink write loop: batch=%d, %d/%d statements as modelled" % (batch, len(shape), len(labels))) if ok else
                      ("DiskSink write loop could NOT be extracted (%s): obligation sink_loop_as_modelled is about defaults only" % why))
+
+        # (3) phase 6: how the execution configuration reaches a run: Experiment.config, the three properties, the head of run()
+        # -> Generated/C02Config.lean (Props: `config_route_as_modelled`)
+        shape, why = [], None
+        try:
+            with open(os.path.join(repo, "coba/experiments/core.py"), encoding="utf-8") as f:
+                tree = ast.parse(f.read())
+            cls = next(n for n in ast.walk(tree) if isinstance(n, ast.ClassDef) and n.name == "Experiment")
+            fns = [n for n in cls.body if isinstance(n, ast.FunctionDef)]
+            cfgf = next(n for n in fns if n.name == "config")
+            cbody = [u(x) for x in strip_doc(cfgf.body)]
+            for x in CFG_NAMES:
+                # unconditional, top-level, the only assignment to the field in `config`
+                if cbody.count("self._%s = %s" % (x, x)) == 1 and sum(1 for y in ast.walk(cfgf) if isinstance(y, (ast.Assign, ast.AugAssign, ast.AnnAssign))
+                                                                      and ("self._%s" % x) in [u(t) for t in (y.targets if isinstance(y, ast.Assign) else [y.target])]) == 1:
+                    shape.append(CFG_LABELS[len(shape)] if CFG_LABELS[len(shape)].endswith("=" + x) else "?")
+            for x in CFG_NAMES:
+                pf = [n for n in fns if n.name == x and any(u(dc) == "property" for dc in n.decorator_list)]
+                setters = [n for n in fns if n.name == x and not any(u(dc) == "property" for dc in n.decorator_list)]
+                if len(pf) == 1 and not setters and [u(y) for y in strip_doc(pf[0].body)] == [
+                        "return self._%s if self._%s is not None else CobaContext.experiment.%s" % (x, x, x)]:
+                    shape.append("prop:" + x)
+            runf = next(n for n in fns if n.name == "run")
+            an = [a.arg for a in runf.args.args]
+            dflt = dict(zip(an[len(an) - len(runf.args.defaults):], runf.args.defaults))
+            if all(x in dflt and isinstance(dflt[x], ast.Constant) and dflt[x].value is None for x in CFG_NAMES):
+                shape.append("run:defaults-None")
+            rb = strip_doc(runf.body)
+            rtxt = [u(x) for x in rb]
+            if rtxt and rtxt[0] == "self.config(processes, maxchunksperchild, maxtasksperchunk)" and \
+                    sum(1 for y in ast.walk(runf) if isinstance(y, ast.Call) and u(y.func) == "self.config") == 1:
+                shape.append("run:self.config(processes,maxchunksperchild,maxtasksperchunk)")
+            asg = [x for x in rb if isinstance(x, ast.Assign) and len(x.targets) == 1 and isinstance(x.targets[0], ast.Tuple)
+                   and [u(e) for e in x.targets[0].elts] == ["mp", "mc", "mt"]]
+            stores = [y for y in ast.walk(runf) if isinstance(y, ast.Name) and isinstance(y.ctx, ast.Store) and y.id in ("mp", "mc", "mt", "is_multiproc")]
+            if len(asg) == 1 and isinstance(asg[0].value, ast.Tuple) and [u(e) for e in asg[0].value.elts] == ["self." + x for x in CFG_NAMES] \
+                    and len(rb) > 1 and rb[1] is asg[0] and len(stores) == 4:
+                shape.append("run:mp,mc,mt=properties")
+            if rtxt.count("is_multiproc = mp > 1 or mc != 0") == 1 and len(stores) == 4:
+                shape.append("run:is_multiproc=mp>1 or mc!=0")
+            ct = [y for y in ast.walk(runf) if isinstance(y, ast.Call) and u(y.func) == "ChunkTasks"]
+            if len(ct) == 1 and [u(a) for a in ct[0].args] == ["mt"] and not ct[0].keywords:
+                shape.append("run:ChunkTasks(mt)")
+            cm = [y for y in ast.walk(runf) if isinstance(y, ast.Call) and u(y.func) == "CobaMultiprocessor"]
+            if len(cm) == 1 and len(cm[0].args) >= 3 and [u(a) for a in cm[0].args[1:3]] == ["mp", "mc"] and not cm[0].keywords:
+                shape.append("run:CobaMultiprocessor(_,mp,mc,_)")
+        except Exception as e:
+            why = repr(e)
+        ok = why is None
+        if not ok:
+            shape = list(CFG_LABELS)
+        put("C02Config.lean",
+            "-- GENERATED by harness/props/c02.py (ast) from coba/experiments/core.py `Experiment.config`, the properties processes / maxchunksperchild / maxtasksperchunk and the head of `Experiment.run` on every run; do not edit.\n"
+            "namespace Coba.Generated.C02Config\n"
+            "/-- the statements the model (`configCall`, `cfgProp`, `runCfg`, `isMultiproc`, `runOrderCfg`) mirrors, as found in the source -/\n"
+            "def shape : List String := %s\n"
+            "def extracted : Bool := %s\n"
+            "end Coba.Generated.C02Config\n" % (lst(shape), "true" if ok else "false"))
+        notes.append(("configuration route: %d/%d statements as modelled" % (len(shape), len(CFG_LABELS))) if ok else
+                     ("configuration route could NOT be extracted (%s): obligation config_route_as_modelled is about defaults only" % why))
         return notes
 
     def pre_build_scan(self, repo):
@@ -732,7 +841,20 @@ class C02(Property):
             c["chain"] = {"p": rng.below(1001), "d": 0, "links": rng.choice([1, 2]), "cfg": {"processes": 1, "maxtasksperchunk": rng.choice([2, 3, 4])}}
         return c
 
+    def add_route(self, rng, c, p):
+        """phase 6: with probability p the configuration of the resumed run (and of the further resumptions) does not come through the
+        arguments of run() but through CobaContext.experiment (process-global), an earlier .config() call, or a mix with decoys"""
+        r = rng.fork("route")
+        if r.chance(p):
+            c["cfg"] = dict(c.get("cfg", CFG1), via=r.choice(VIAS), decoy=r.choice([1, 1, 2, 3]))
+            if c.get("chain"):
+                c["chain"] = dict(c["chain"], cfg=dict(c["chain"].get("cfg", CFG1), via=r.choice(VIAS + ["args"]), decoy=r.choice([1, 2])))
+        return c
+
     def generate(self, rng, tier):
+        return self.add_route(rng, self.generate_p5(rng, tier), 0.3)
+
+    def generate_p5(self, rng, tier):
         rng = rng.fork("c02")
         if rng.chance(0.05):
             return self.gen_chunking(rng, tier)
@@ -773,6 +895,9 @@ class C02(Property):
         return c
 
     def search(self, rng, tier):
+        return self.add_route(rng, self.search_p5(rng, tier), 0.3)
+
+    def search_p5(self, rng, tier):
         rng = rng.fork("c02s")
         if rng.chance(0.25):
             return self.gen_long(rng, tier)
@@ -835,6 +960,16 @@ class C02(Property):
         # phase 5: multi-process resumption of chunk()ed environments (chunks of several records: per-chunk order must survive)
         cs.append(dict(base, envs=[{"n": 1}, {"n": 2}], lrns=[{}, {"p": 1}], vals=[{"nrows": 1}, {"nrows": 2}], chunk=True, gz=False,
                        cfg={"processes": 2, "maxchunksperchild": 0, "maxtasksperchunk": 3}, cuts=[["b", 4, 0], ["b", 9, 1]]))
+        # phase 6: the configuration of the resumed run reaches run() through CobaContext.experiment (process-global), an earlier
+        # .config() call, or a mix with decoys: chunk()ed environment, effective maxtasksperchunk 2 (a decoy of 3 or 5 would give another
+        # record order and other chunks); the further resumptions of the same path use another route
+        for i, via in enumerate(VIAS):
+            cs.append(dict(base, lrns=[{}, {"p": 1}, {"p": 2}], vals=[{"nrows": 1}, {"nrows": 2}], chunk=True, gz=(i == 1),
+                           cfg={"processes": 1, "maxchunksperchild": 0, "maxtasksperchunk": 2 if i != 3 else 0, "via": via, "decoy": 1 + 2 * (i % 2)},
+                           cuts=[["b", j, 0] for j in (0, 1, 2, 5, 7, 8, 10, 99)] + [["b", 6, 2], ["b", 9, -1]],
+                           chain={"p": 400, "d": 0, "links": 2, "cfg": {"processes": 1, "maxtasksperchunk": 3, "via": VIAS[(i + 2) % len(VIAS)], "decoy": 2}}))
+        cs.append(dict(base, envs=[{"n": 1}, {"n": 2}], lrns=[{}, {"p": 1}], chunk=[True, False], gz=False,
+                       cfg={"processes": 2, "maxchunksperchild": 0, "maxtasksperchunk": 2, "via": "context"}, cuts=[["b", 4, 0], ["b", 7, 1]]))
         for k in (2, 3, 4):
             cs.append(dict(base, lrns=[{}, {"p": 1}, {"p": 2}], vals=[{"nrows": 1}, {"nrows": 2}], chunk=True, gz=(k == 3),
                            cfg0={"processes": 1, "maxchunksperchild": 0, "maxtasksperchunk": k if k != 2 else 0},
@@ -1028,6 +1163,12 @@ class C02(Property):
                             chunk_of[eid] = eid
                     req["chunk_of"] = chunk_of
                     req["max_tasks"] = int(steps[ns[0]][4].get("maxtasksperchunk", 0) or 0)
+                    # phase 6: the route the configuration took in the REAL run of the first step of this group (stored by .config(),
+                    # arguments of run(), CobaContext.experiment as read just before the call); the model computes the effective values
+                    rt = observed[ns[0]].get("route") or {}
+                    if rt.get("args") is not None and rt.get("ctx") is not None:
+                        req["route"] = {"stored": [-1 if v is None else int(v) for v in rt["stored"]],
+                                        "args": [-1 if v is None else int(v) for v in rt["args"]], "ctx": [int(v) for v in rt["ctx"]]}
                     tr0 = build(case, trace)._triples
                     real_given = [len(set([l for _, l, _ in tr0])), len(set([e for e, _, _ in tr0]))]
                     alt = self.alt_case(case, len(lg.data))
@@ -1041,6 +1182,24 @@ class C02(Property):
                     req["chunker_probe"] = [[n_, m_] for n_ in sorted(set([0, 1, max(0, n_all - 1), n_all, n_all + 1, len(lg.lines) % 7 + 2])) for m_ in ms_]
                     ans = driver.ask(req)
                     self.p5_checks(case, req, ans, fails, tags)
+                    if ans.get("eff_cfg") is not None and not ans.get("config_extracted", True):
+                        tags.append("config-route:not-extracted")
+                    if ans.get("eff_cfg") is not None:
+                        for n in ns:
+                            rt_n = observed[n].get("route") or {}
+                            if rt_n.get("eff") is None or [rt_n.get("stored"), rt_n.get("args"), rt_n.get("ctx")] != [rt.get("stored"), rt.get("args"), rt.get("ctx")]:
+                                continue
+                            via_ = steps[n][4].get("via", "args")
+                            want_ = steps[n][4]
+                            want_ = [want_.get("processes", 1), want_.get("maxchunksperchild", 0), want_.get("maxtasksperchunk", 0)]
+                            if list(ans["eff_cfg"][:3]) != list(rt_n["eff"]):
+                                fails.append(F("A", "configuration the run works with (processes, maxchunksperchild, maxtasksperchunk): implementation %s, model %s; "
+                                               ".config() stored %s, run() arguments %s, CobaContext.experiment %s" % (
+                                                   rt_n["eff"], ans["eff_cfg"][:3], rt_n["stored"], rt_n["args"], rt_n["ctx"]), "A:effective-config:" + via_))
+                            elif list(rt_n["eff"]) != want_:
+                                fails.append(F("H", "route %s does not produce the configuration wanted %s (got %s)" % (via_, want_, rt_n["eff"]), "harness-error"))
+                            tags.append("cfg-eff:" + ("multiprocess" if ans["eff_cfg"][3] else "maxtasksperchunk=%s" % ("0" if not ans["eff_cfg"][2] else "k")) + ":" + via_)
+                            break
                     if "given_shape" in ans and list(ans["given_shape"]) != real_given:
                         fails.append(F("A", "n_learners/n_environments of the experiment given: implementation %s, model %s" % (real_given, ans["given_shape"]), "A:given-shape"))
                     if "given_shape" in ans and req["exp_shape"] != real_given:
@@ -1146,6 +1305,9 @@ class C02(Property):
             except Exception:
                 ff_cut = False
         st, res = run(case, path, trace, cfg)
+        last = dict(LAST_RUN)
+        if cfg.get("via"):
+            tags.append("cfg-route:" + cfg["via"])
         final = open(path, "rb").read()
         evaluated = read_trace(trace)
         if st == "ok" and len(final) < 300000:
@@ -1157,7 +1319,7 @@ class C02(Property):
                     fails.append(F("A", "Result.from_file on the resumed file differs from the Result run() returned: " + where, "A:from-file-differs"))
             except Exception as e:
                 fails.append(F("A", "Result.from_file on the resumed file raised %r although run() returned: %s" % (e, where), "A:from-file-raises"))
-        ob = {"path": path, "ff_cut": ff_cut, "good": good, "class": cls, "status": st, "evaluated": [list(t) for t in evaluated], "final_data": final, "j": j, "cut": cut,
+        ob = {"route": last, "path": path, "ff_cut": ff_cut, "good": good, "class": cls, "status": st, "evaluated": [list(t) for t in evaluated], "final_data": final, "j": j, "cut": cut,
               "restored_n": j, "ntasks": 0, "final_readable": False, "kept_records": j}
         recorded = set()      # object triples with an I record among the complete lines of the cut file
         recorded_rows = {}
@@ -1535,7 +1697,8 @@ class C02(Property):
                 "for k in ks:\n"
                 "    p = file_at(d, 'c%%d' %% k, case); open(p, 'wb').write(log.data[:k])\n"
                 "    try:\n"
-                "        r = build(case, None).run(p, quiet=True, **case.get('cfg', {}))\n"
+                "        # (a route cfg['via'] through CobaContext.experiment / .config() is replayed by the complete monitor below, here the values are passed as arguments)\n"
+                "        r = build(case, None).run(p, quiet=True, **{a: v for a, v in case.get('cfg', {}).items() if a not in ('via', 'decoy')})\n"
                 "        same = all(list(a.to_dicts()) == list(b.to_dicts()) for a, b in zip((r.environments, r.learners, r.evaluators, r.interactions), (ref.environments, ref.learners, ref.evaluators, ref.interactions))) and r.experiment == ref.experiment\n"
                 "        print(k, log.cut_class(k)[0], 'same Result' if same else 'DIFFERENT Result', 'I ids:', sorted(l[:14] for l in open(p, 'rb').read().split(b'\\n') if l.startswith(b'[\"I\"')) if not is_gz(case) else '')\n"
                 "    except Exception as e:\n"
